@@ -502,3 +502,56 @@ macro_rules! es_inst {
 es_inst!(c05_every_second_ping_nolast = (STAGE_PING, false), c05_every_second_pong_last = (STAGE_PONG, true),
          c05_every_second_peng_last = (STAGE_PENG, true), c05_every_second_waiting = (WAITING_TO_CLOSE, true),
          c05_every_second_closing = (CLOSING, false));
+
+/// ... and in every later stage of a handshake object too (awaiting pong, awaiting peng, lingering, closing): a
+/// verified ping carrying a salted hash of the OWN node id is refused with the fatal self-connection error, without a
+/// reply and without touching the object. (A node that dials two of its own addresses meets itself in these stages.)
+fn self_ping_refused_in_stage(stage: u8) {
+    let node_id: NodeId = kani::any();
+    let salt2: [u8; 4] = kani::any();
+    let kp = Ed25519KeyPair::from_seed_unchecked(&[7u8; 32]).unwrap();
+    let tk: VArc<[Ed25519PublicKey]> = VArc::new([[0u8; 32]]);
+    let mut st: InitState<NoPayload> = InitState::new(node_id, NoPayload, VArc::new(kp), tk, mk_algos(2, false, &[1.0, 2.0, 3.0], false));
+    st.next_stage = stage;
+    st.last_message = Some(vec![9, 9, 9]);
+    if stage == STAGE_PONG {
+        let (k, _) = st.create_ecdh_keypair();
+        st.ecdh_private_key = Some(k);
+    }
+    let mut h = [0u8; SALTED_NODE_ID_HASH_LEN];
+    h[0..4].copy_from_slice(&salt2);
+    h[4..].copy_from_slice(&node_id);
+    let d = digest::digest(&digest::SHA256, &h);
+    h[4..].copy_from_slice(&d.as_ref()[..16]);
+    unsafe {
+        RF_KIND = 1;
+        RF_HASH = h;
+        RF_SHAPE = 2;
+        SENT_STAGE = 0;
+    }
+    let mut out = MsgBuffer::new(100);
+    out.set_length(40);
+    let res = st.handle_init(&mut out);
+    match res {
+        Ok(_) => assert!(false, "a node continued a handshake with itself"),
+        Err(e) => {
+            assert!(matches!(e, Error::CryptoInitFatal(_)));
+            std::mem::forget(e);
+        }
+    }
+    assert!(st.crypto.is_none() && st.next_stage == stage && unsafe { SENT_STAGE } == 0);
+    assert!(st.last_message.is_some() && st.ecdh_private_key.is_some() == (stage == STAGE_PONG));
+    std::mem::forget(st);
+    witness!();
+}
+macro_rules! selfping_inst {
+    ($($name:ident = $st:expr),*) => {$(
+        #[cfg_attr(kani, kani::proof, kani::unwind(34), kani::stub(crate::crypto::init::InitMsg::read_from, read_from_verified),
+                   kani::stub(crate::crypto::init::InitState::send_message, send_message_recorder))]
+        pub fn $name() {
+            self_ping_refused_in_stage($st)
+        }
+    )*};
+}
+selfping_inst!(c14_self_ping_refused_awaiting_pong = STAGE_PONG, c14_self_ping_refused_awaiting_peng = STAGE_PENG,
+               c14_self_ping_refused_lingering = WAITING_TO_CLOSE, c14_self_ping_refused_closing = CLOSING);
